@@ -1,7 +1,7 @@
 #!/bin/sh
 # tools/try_wave.sh <worktree-prefix> <tag> <prop> "<extra props>"   e.g.  tools/try_wave.sh /tmp/mut2- w4 C01 "C02 C03"
 PFX=$1; TAG=$2; P=$3; EXTRA=$4
-for k in 1 2 3; do
+for k in 1 2 3 4; do
   d=$PFX$P/MUTANTS/$k
   [ -f $d/patch.diff ] || continue
   demo=$(grep -oE "packages/[a-z-]+/(tests|examples)/[A-Za-z0-9_]+\.rs" $d/README.md | head -1)
